@@ -636,3 +636,269 @@ Section Core.
     rewrite coveredb_false in C. apply (C c); auto. eapply nth_error_In; eauto.
   Qed.
 End Core.
+
+(* ================================================================== 8. the clique enumeration and the schedule *)
+Lemma is_cliqueb_spec g c : is_cliqueb g c = true <-> CliqueP g c.
+Proof.
+  unfold is_cliqueb, CliqueP. rewrite !andb_true_iff, nodupb_NoDup, forallb_forall. split.
+  - intros [[ND V] A]. split; auto. split.
+    + intros v Hv. apply memb_In. auto.
+    + apply (accepts_spec (g_edges g) c ND). exact A.
+  - intros [ND [V A]]. split; [split; auto|].
+    + intros v Hv. apply memb_In. auto.
+    + apply (accepts_spec (g_edges g) c ND). exact A.
+Qed.
+
+Lemma cliques_on_sound es : forall vs c, NoDup vs -> In c (cliques_on es vs) ->
+  NoDup c /\ (forall x, In x c -> In x vs) /\ (forall u v, inpair c u v -> adj es u v = true).
+Proof.
+  induction vs as [|x t IH]; intros c ND Hc; cbn in Hc.
+  - destruct Hc as [<-|[]]. split; [constructor|]. split; [tauto|]. intros u v [[] _].
+  - inversion ND as [|? ? Hx NDt]; subst. apply in_app_or in Hc. destruct Hc as [Hc|Hc].
+    + apply in_map_iff in Hc. destruct Hc as [c0 [<- Hc0]]. apply filter_In in Hc0.
+      destruct Hc0 as [Hc0 Fa]. rewrite forallb_forall in Fa.
+      destruct (IH c0 NDt Hc0) as [ND0 [V0 A0]]. split; [|split].
+      * constructor; auto.
+      * intros y [<-|Hy]; cbn; auto.
+      * intros u v [Hu [Hv Hn]]. cbn in Hu, Hv.
+        destruct Hu as [<-|Hu], Hv as [<-|Hv]; try congruence; auto.
+        -- rewrite adj_sym. auto.
+        -- apply A0. split; auto.
+    + destruct (IH c NDt Hc) as [ND0 [V0 A0]]. split; auto. split; auto. intros y Hy. cbn. auto.
+Qed.
+
+Lemma cliques_on_complete es K : (forall u v, inpair K u v -> adj es u v = true) ->
+  forall vs, NoDup vs -> In (filter (fun x => memb x K) vs) (cliques_on es vs).
+Proof.
+  intros A. induction vs as [|x t IH]; intros ND; cbn; auto.
+  inversion ND as [|? ? Hx NDt]; subst. apply in_or_app.
+  destruct (memb x K) eqn:M.
+  - left. apply in_map. apply filter_In. split; auto.
+    apply forallb_forall. intros y Hy. apply filter_In in Hy. destruct Hy as [Hy My].
+    apply A. split; [apply memb_In; auto|]. split; [apply memb_In; auto|]. intros ->. contradiction.
+  - right. auto.
+Qed.
+
+Lemma filter_memb_seteq K vs : (forall x, In x K -> In x vs) ->
+  forall x, In x (filter (fun y => memb y K) vs) <-> In x K.
+Proof.
+  intros H x. rewrite filter_In, memb_In. split; [tauto|]. intros Hx. auto.
+Qed.
+
+(* every clique of g has its set in the model's enumeration *)
+Lemma all_cliques_complete g K : ValidGraph g -> CliqueP g K -> K <> [] ->
+  exists k, In k (all_cliques g) /\ NoDup k /\ forall x, In x k <-> In x K.
+Proof.
+  intros [NDn _] [NDK [VK AK]] NE. exists (filter (fun y => memb y K) (g_nodes g)).
+  pose proof (filter_memb_seteq K (g_nodes g) VK) as Hset.
+  split; [|split; auto].
+  - unfold all_cliques. apply filter_In. split; [apply cliques_on_complete; auto|].
+    unfold nonemptyb. apply negb_true_iff, Nat.eqb_neq.
+    destruct K as [|a K']; [congruence|]. intros L. apply length_zero_iff_nil in L.
+    assert (In a (filter (fun y => memb y (a :: K')) (g_nodes g))) by (apply Hset; cbn; auto).
+    rewrite L in H. inversion H.
+  - apply NoDup_filter. auto.
+Qed.
+
+Lemma all_cliques_sound g k : ValidGraph g -> In k (all_cliques g) -> CliqueP g k /\ k <> [].
+Proof.
+  intros [NDn _] H. unfold all_cliques in H. apply filter_In in H. destruct H as [H NE].
+  split; [apply (cliques_on_sound _ _ _ NDn H)|].
+  intros ->. discriminate.
+Qed.
+
+Lemma set_eqb_spec a b : set_eqb a b = true <-> forall x, In x a <-> In x b.
+Proof.
+  unfold set_eqb. rewrite andb_true_iff, !forallb_forall. split.
+  - intros [H1 H2] x. split; intros Hx; apply memb_In; auto.
+  - intros H. split; intros x Hx; apply memb_In; apply H; auto.
+Qed.
+
+(* a valid schedule, once sorted, has the three properties the invariant proof needs *)
+Theorem valid_sched_good g sh : ValidGraph g -> valid_sched g sh = true -> GoodOrder g (mpcc_order sh).
+Proof.
+  intros Hg V. unfold valid_sched in V. apply andb_true_iff in V. destruct V as [V _].
+  apply andb_true_iff in V. destruct V as [V1 V2]. rewrite forallb_forall in V1, V2.
+  unfold mpcc_order. constructor.
+  - intros c Hc. apply (proj1 (sort_desc_In _ _)) in Hc. specialize (V1 c Hc). apply andb_true_iff in V1.
+    apply is_cliqueb_spec. tauto.
+  - intros K HK LK. destruct (all_cliques_complete g K Hg HK) as [k [Hk [NDk Hset]]].
+    { intros ->. cbn in LK. lia. }
+    specialize (V2 k Hk). apply existsb_exists in V2. destruct V2 as [c [Hc S]].
+    rewrite set_eqb_spec in S. exists c. split; [apply (proj2 (sort_desc_In _ _)); auto|].
+    intros x. rewrite <- Hset. symmetry. apply S.
+  - apply sort_desc_sorted.
+Qed.
+
+(* the model's own enumeration is a valid schedule (and so is any arrangement the validator accepts) *)
+Lemma set_eqb_refl a : set_eqb a a = true.
+Proof. apply set_eqb_spec. tauto. Qed.
+
+Theorem own_enumeration_valid g : ValidGraph g -> valid_sched g (all_cliques g) = true.
+Proof.
+  intros Hg. unfold valid_sched. rewrite !andb_true_iff, Nat.eqb_refl, !forallb_forall. split; [split|]; auto.
+  - intros c Hc. destruct (all_cliques_sound g c Hg Hc) as [HC NE]. apply andb_true_iff. split.
+    + apply is_cliqueb_spec. auto.
+    + unfold nonemptyb. apply negb_true_iff, Nat.eqb_neq. intros L. apply length_zero_iff_nil in L. auto.
+  - intros k Hk. apply existsb_exists. exists k. split; auto. apply set_eqb_refl.
+Qed.
+
+(* validity of a schedule only depends on it as a multiset: every permutation the shuffle can return is valid *)
+Theorem valid_sched_perm g sh sh' : Permutation sh sh' -> valid_sched g sh = valid_sched g sh'.
+Proof.
+  intros P. unfold valid_sched. rewrite (Permutation_length P). f_equal. f_equal.
+  - apply bool_eq_iff. rewrite !forallb_forall. split; intros H c Hc; apply H.
+    + eapply Permutation_in; [symmetry; exact P|auto].
+    + eapply Permutation_in; [exact P|auto].
+  - apply bool_eq_iff. rewrite !forallb_forall.
+    split; intros H k Hk; specialize (H k Hk); rewrite existsb_exists in *;
+      destruct H as [c [Hc S]]; exists c; split; auto.
+    + eapply Permutation_in; [exact P|auto].
+    + eapply Permutation_in; [symmetry; exact P|auto].
+Qed.
+
+(* ================================================================== 9. the property theorem for the model *)
+Theorem mpcc_spec g ms sh :
+  valid_graph g = true -> (ms = 0 \/ 2 <= ms) -> valid_sched g sh = true -> Spec g ms (mpcc g ms sh).
+Proof.
+  intros Hg Hms V. apply valid_graph_spec in Hg. unfold mpcc.
+  apply core_spec; auto. apply valid_sched_good; auto.
+Qed.
+
+(* ================================================================== 10. the checker decides the specification *)
+Lemma adj_incl A B :
+  forallb (fun e => adj B (fst e) (snd e)) A = true <-> forall u v, adj A u v = true -> adj B u v = true.
+Proof.
+  rewrite forallb_forall. split.
+  - intros H u v Auv. apply adj_spec in Auv. destruct Auv as [e [He E]]. specialize (H e He).
+    pose proof (adj_eqe B (u, v) e E) as X. cbn in X. rewrite X. exact H.
+  - intros H e He. apply H. apply In_adj; auto.
+Qed.
+
+Lemma ck_nodes_spec g o :
+  ck_nodes g o = true <-> (forall v, In v (o_nodes o) <-> In v (g_nodes g)) /\ NoDup (o_nodes o).
+Proof.
+  unfold ck_nodes. rewrite !andb_true_iff, !forallb_forall, nodupb_NoDup. split.
+  - intros [[H1 H2] H3]. split; auto. intros v. split; intros Hv; apply memb_In; auto.
+  - intros [H1 H2]. split; auto. split; intros v Hv; apply memb_In; apply H1; auto.
+Qed.
+
+Lemma ck_edges_spec g o :
+  ck_edges g o = true <->
+  (forall u v, adj (map fst (o_rows o)) u v = adj (g_edges g) u v) /\ SimpleP (map fst (o_rows o)).
+Proof.
+  unfold ck_edges. cbv zeta. rewrite !andb_true_iff, !adj_incl, simpleb_spec. split.
+  - intros [[H1 H2] H3]. split; auto. intros u v. apply bool_eq_iff. split; auto.
+  - intros [H S]. split; auto. split; intros u v; rewrite H; auto.
+Qed.
+
+Lemma ck_labelled_spec o : ck_labelled o = true <-> forall e, ~ In (e, None) (o_rows o).
+Proof.
+  unfold ck_labelled. rewrite forallb_forall. split.
+  - intros H e Hin. specialize (H _ Hin). cbn in H. discriminate.
+  - intros H [e [l|]] Hin; cbn; auto. exfalso. eapply H; eauto.
+Qed.
+
+Lemma has_label_spec l r : has_label l r = true <-> snd r = Some l.
+Proof.
+  unfold has_label. destruct (snd r) as [l'|].
+  - rewrite label_eqb_eq. split; congruence.
+  - split; discriminate.
+Qed.
+
+Lemma ck_label_spec ms rows l :
+  ck_label ms rows l = true <->
+  lab_size l = length (lab_mem l) /\ NoDup (lab_mem l) /\ (0 < ms -> lab_size l <= ms) /\
+  (forall u v, has_row rows u v l <-> inpair (lab_mem l) u v).
+Proof.
+  unfold ck_label.
+  rewrite !andb_true_iff, Nat.eqb_eq, nodupb_NoDup, orb_true_iff, Nat.eqb_eq, Nat.leb_le, !forallb_forall.
+  split.
+  - intros [[[[H1 H2] H3] H4] H5]. split; auto. split; auto. split; [lia|]. intros u v. split.
+    + intros [e [Hin E]]. specialize (H5 (e, Some l) Hin).
+      assert (X : has_label l (e, Some l) = true) by (apply has_label_spec; reflexivity).
+      rewrite X in H5. cbn in H5. apply inpairb_spec in H5.
+      apply (proj2 (inpair_eqe _ u v e E)). exact H5.
+    + intros Huv. destruct (pairs_complete _ _ _ Huv) as [p [Hp E]]. specialize (H4 p Hp).
+      apply existsb_exists in H4. destruct H4 as [r [Hr X]]. apply andb_true_iff in X.
+      destruct X as [X1 X2]. apply has_label_spec in X1. destruct r as [e ol]. cbn in X1, X2. subst ol.
+      exists e. split; auto. eapply eqe_trans; [exact E|]. rewrite eqe_sym. exact X2.
+  - intros [H1 [H2 [H3 H4]]]. split; [split; [split; [split|]|]|]; auto.
+    + destruct ms; [left; auto|right; apply H3; lia].
+    + intros p Hp. pose proof (pairs_inpair _ _ H2 Hp) as Hpp. apply H4 in Hpp.
+      destruct Hpp as [e [Hin E]]. apply existsb_exists. exists (e, Some l). split; auto.
+      apply andb_true_iff. split; [apply has_label_spec; reflexivity|]. cbn.
+      rewrite eqe_sym. destruct p; exact E.
+    + intros r Hr. destruct (has_label l r) eqn:X; auto. apply has_label_spec in X.
+      destruct r as [e ol]. cbn in X. subst ol. cbn. apply inpairb_spec. apply H4.
+      exists e. split; auto. destruct e; apply eqe_refl.
+Qed.
+
+Lemma ck_labels_spec ms o :
+  ck_labels ms o = true <->
+  forall e l, In (e, Some l) (o_rows o) ->
+    lab_size l = length (lab_mem l) /\ NoDup (lab_mem l) /\ (0 < ms -> lab_size l <= ms) /\
+    (forall u v, has_row (o_rows o) u v l <-> inpair (lab_mem l) u v).
+Proof.
+  unfold ck_labels. rewrite forallb_forall. split.
+  - intros H e l Hin. specialize (H _ Hin). cbn in H. apply ck_label_spec. exact H.
+  - intros H [e [l|]] Hin; cbn; auto. apply ck_label_spec. eauto.
+Qed.
+
+Lemma ck_ids_spec o :
+  ck_ids o = true <->
+  forall e1 l1 e2 l2, In (e1, Some l1) (o_rows o) -> In (e2, Some l2) (o_rows o) ->
+    lab_id l1 = lab_id l2 -> l1 = l2.
+Proof.
+  unfold ck_ids. rewrite forallb_forall. split.
+  - intros H e1 l1 e2 l2 H1 H2 Hid. specialize (H _ H1). rewrite forallb_forall in H.
+    specialize (H _ H2). cbn in H. rewrite Hid, Nat.eqb_refl in H. apply label_eqb_eq. exact H.
+  - intros H [e1 [l1|]] H1; apply forallb_forall; intros [e2 [l2|]] H2; cbn; auto.
+    destruct (Nat.eqb (lab_id l1) (lab_id l2)) eqn:X; auto. apply Nat.eqb_eq in X.
+    apply label_eqb_eq. eapply H; eauto.
+Qed.
+
+Lemma ck_greedy_spec g ms o : ValidGraph g ->
+  (ck_greedy g ms o = true <->
+   forall K, CliqueP g K -> 2 <= length K -> Within ms (length K) ->
+     exists u v l, inpair K u v /\ has_row (o_rows o) u v l /\ length K <= lab_size l).
+Proof.
+  intros [NDn _]. unfold ck_greedy. rewrite forallb_forall. split.
+  - intros H K [NDK [VK AK]] LK WK.
+    set (K' := filter (fun y => memb y K) (g_nodes g)).
+    pose proof (filter_memb_seteq K (g_nodes g) VK) as Hset. fold K' in Hset.
+    assert (HK' : In K' (cliques_on (g_edges g) (g_nodes g))) by (apply cliques_on_complete; auto).
+    assert (LK' : length K' = length K) by (apply seteq_length; auto; apply NoDup_filter; auto).
+    specialize (H K' HK'). rewrite LK' in H.
+    assert (C : Nat.leb 2 (length K) && within ms (length K) = true).
+    { apply andb_true_iff. split; [apply Nat.leb_le; auto|apply within_spec; auto]. }
+    rewrite C in H. apply existsb_exists in H. destruct H as [[e [l|]] [Hr X]]; cbn in X; [|discriminate].
+    apply andb_true_iff in X. destruct X as [X1 X2]. apply inpairb_spec in X1. apply Nat.leb_le in X2.
+    exists (fst e), (snd e), l. split; [apply (proj1 (inpair_seteq K' K _ _ Hset)); auto|]. split; auto.
+    exists e. split; auto. destruct e; apply eqe_refl.
+  - intros H K HK. destruct (cliques_on_sound _ _ _ NDn HK) as [NDK [VK AK]].
+    destruct (Nat.leb 2 (length K) && within ms (length K)) eqn:C; auto.
+    apply andb_true_iff in C. destruct C as [C1 C2]. apply Nat.leb_le in C1. apply within_spec in C2.
+    destruct (H K) as [u [v [l [Huv [[e [Hin E]] Hl]]]]]; auto.
+    { split; auto. }
+    apply existsb_exists. exists (e, Some l). split; auto. cbn.
+    apply andb_true_iff. split; [|apply Nat.leb_le; auto].
+    apply inpairb_spec. apply (proj1 (inpair_eqe K u v e E)). exact Huv.
+Qed.
+
+Theorem check_spec g ms o : valid_graph g = true -> (check g ms o = true <-> Spec g ms o).
+Proof.
+  intros Hg. apply valid_graph_spec in Hg. unfold check.
+  rewrite !andb_true_iff, ck_nodes_spec, ck_edges_spec, ck_labelled_spec, ck_labels_spec, ck_ids_spec,
+    (ck_greedy_spec g ms o Hg).
+  split.
+  - intros [[[[[[N1 N2] [E1 E2]] Lb] Ls] Id] Gr]. constructor; auto.
+  - intros [N1 N2 E1 E2 Lb Ls Id Gr].
+    split; [|exact Gr]. split; [|exact Id]. split; [|exact Ls]. split; [|exact Lb].
+    split; split; assumption.
+Qed.
+
+(* the model's output passes the checker, for all valid inputs and all schedules *)
+Theorem mpcc_check g ms sh :
+  valid_graph g = true -> (ms = 0 \/ 2 <= ms) -> valid_sched g sh = true -> check g ms (mpcc g ms sh) = true.
+Proof. intros Hg Hms V. apply (check_spec g ms _ Hg). apply mpcc_spec; auto. Qed.
